@@ -24,6 +24,8 @@ from liquid.token import TOKEN_LBRACKET
 from liquid.token import TOKEN_RBRACKET
 from liquid.token import TOKEN_WORD
 
+from ._tokenize import _keywords as RESERVED_WORDS
+
 if TYPE_CHECKING:
     from liquid import Environment
     from liquid import RenderContext
@@ -57,7 +59,9 @@ class Path(Expression):
         if isinstance(head, Path):
             # A bracketed root, `[x]`, names the variable to look up.
             buf = [f"[{head}]"]
-        elif isinstance(head, str) and not RE_WORD.fullmatch(head):
+        elif isinstance(head, str) and (
+            not RE_WORD.fullmatch(head) or head in RESERVED_WORDS
+        ):
             # A quoted root, `['some thing']`.
             quote = '"' if "'" in head else "'"
             buf = [f"[{quote}{head}{quote}]"]
@@ -67,7 +71,7 @@ class Path(Expression):
             if isinstance(segment, Path):
                 buf.append(f"[{segment}]")
             elif isinstance(segment, str):
-                if RE_PROPERTY.fullmatch(segment):
+                if RE_PROPERTY.fullmatch(segment) and segment not in RESERVED_WORDS:
                     buf.append(f".{segment}")
                 else:
                     # No escape sequences in quoted segments either.
